@@ -123,6 +123,11 @@ func c18R6(c *Ctx) {
 						}
 					}
 				}
+				if !fromLib && sizeRefusal(h, ret, d.lib) {
+					// refusing a precision / count beyond what can matter is where the library call itself is partial
+					// (it allocates in proportion to the value and panics near the integer limits): C18.R1 asks for it
+					fromLib = true
+				}
 				if !fromLib {
 					bad = append(bad, c.instrPos(ret)+": the handler returns an error of its own — it refuses arguments that "+d.lib+" accepts")
 				}
@@ -152,4 +157,69 @@ func c18R6(c *Ctx) {
 			fmt.Sprintf("%s answers some arguments without %s (its documented behaviour — e.g. Unicode case mapping, strconv's grammar — then does not hold for them): %s", bf.id, d.lib, strings.Join(bad, "; ")))
 	}
 	c.minCount(rule, "wrapper functions", n, 14)
+}
+
+// sizeRefusal: the error return is taken only on the edge `p > K` (K >= 1074, the largest number of digits a float64
+// can need) of an integer parameter p that is the precision argument of the delegated library call.
+func sizeRefusal(h *ssa.Function, ret *ssa.Return, lib string) bool {
+	if lib != "strconv.FormatFloat" {
+		return false
+	}
+	var sizeParam ssa.Value
+	eachInstr(h, func(r instrRef) {
+		call, ok := r.I.(*ssa.Call)
+		if !ok || calleeName(call.Common()) != lib {
+			return
+		}
+		args := call.Common().Args
+		v := args[len(args)-2]
+		if cv, ok := v.(*ssa.Convert); ok {
+			v = cv.X
+		}
+		if p, ok := v.(*ssa.Parameter); ok {
+			sizeParam = p
+		}
+	})
+	if sizeParam == nil {
+		return false
+	}
+	found := false
+	eachInstr(h, func(r instrRef) {
+		ifi, ok := r.I.(*ssa.If)
+		if !ok {
+			return
+		}
+		cnd, ok := ifi.Cond.(*ssa.BinOp)
+		if !ok {
+			return
+		}
+		op := cnd.Op
+		var k *ssa.Const
+		if cnd.X == sizeParam {
+			k, _ = cnd.Y.(*ssa.Const)
+		} else if cnd.Y == sizeParam {
+			k, _ = cnd.X.(*ssa.Const)
+			op = flipCmp(op)
+		}
+		if k == nil {
+			return
+		}
+		kv, isInt := constInt(k)
+		if !isInt || kv < 1074 {
+			return
+		}
+		for succ := 0; succ < 2; succ++ {
+			if !edgeDominates(r.Block, succ, ret.Block()) {
+				continue
+			}
+			o := op
+			if succ == 1 {
+				o = negateCmp(o)
+			}
+			if o == token.GTR || o == token.GEQ {
+				found = true
+			}
+		}
+	})
+	return found
 }
